@@ -3945,6 +3945,8 @@ reinit:
         block.num--;
         /* Only process if not duplicate block */
         if (updated_block) {
+          /* The transfer makes progress: do not let the lg_crcv time out */
+          coap_ticks(&lg_crcv->last_used);
           if ((session->block_mode & COAP_SINGLE_BLOCK_OR_Q) || block.bert) {
             if (size2 < saved_offset + length) {
               size2 = saved_offset + length;
